@@ -21,7 +21,7 @@ structure AttOK (a : Attribute) (o : AttOpts) (n : Nat) : Prop where
   size : n * a.numComponents < 2 ^ 31
   explicit : ∀ org r, o.explicitQuant = some (org, r) → r < 2 ^ 32 ∧ ∀ m ∈ org, m < 2 ^ 32
   normals : encoderType a o = 3 → ∀ t, Octa.init o.quantBits.toNat = some t →
-    ∀ r ∈ pointRows a n, octaRowOK t r
+    ∀ r ∈ pointRows a n, octaRowOK t r = true
 
 theorem encoderType_cases (a : Attribute) (o : AttOpts) :
     (encoderType a o = 0) ∨
